@@ -152,7 +152,44 @@ def random_program(rng):
     return "\n".join(lines) + "\n"
 
 
+def decorate(text, rng2):
+    """post-hoc widening that leaves the main random stream (and so the other programs of a seed) untouched: one rule gets
+    (T1) an explicit type atom on a fresh variable plus a premise equality tying it to a bound variable (`if zz: P; ...;
+    if pa = zz;`), or (T2) a diagonal atom over a fresh variable (`if ra(zz, zz);`)"""
+    import re
+    lines = text.split("\n")
+    sigs = {}
+    for l in lines:
+        m = re.match(r"pred (\w+)\((.*)\);", l)
+        if m:
+            sigs[m.group(1)] = [a.strip() for a in m.group(2).split(",") if a.strip()]
+    idx = [i for i, l in enumerate(lines) if l.startswith("rule ") and "match" not in l]
+    if not idx:
+        return text
+    i = rng2.choice(idx)
+    head, body = lines[i].split("{", 1)
+    stmts = [st.strip() for st in body.rsplit("}", 1)[0].split(";") if st.strip()]
+    prem = [st for st in stmts if st.startswith("if ")]
+    concl = [st for st in stmts if not st.startswith("if ")]
+    tname = {"p": "P", "q": "Q", "e": "E"}
+    pvars = sorted(set(v for st in prem for v in re.findall(r"\b[pqe][abc]\b", st)))
+    diag = sorted(n for n, a in sigs.items() if len(a) == 2 and a[0] == a[1])
+    if rng2.random() < 0.5 and pvars:
+        x = rng2.choice(pvars)
+        prem.insert(rng2.randint(0, len(prem)), "if zz: %s" % tname[x[0]])
+        prem.append("if %s = zz" % x)
+    elif diag:
+        n = rng2.choice(diag)
+        prem.insert(rng2.randint(0, len(prem)), "if %s(zz, zz)" % n)
+    else:
+        return text
+    lines[i] = "%s{ %s; }" % (head, "; ".join(prem + concl))
+    return "\n".join(lines)
+
+
 def random_programs(seed, n):
     rng = random.Random(seed)
     out = [random_program(rng) for _ in range(30 * n)]
-    return [p for p in out if p is not None]
+    out = [p for p in out if p is not None]
+    rng2 = random.Random(seed * 7919 + 13)
+    return [(decorate(p, rng2) if rng2.random() < 0.3 else p) for p in out]
